@@ -157,6 +157,20 @@ func runC05(c C05Case) (res c05result) {
 			case "stall-close":
 				time.Sleep(3 * time.Millisecond)
 				at.Close()
+			case "flood-close":
+				// the client asks for more answers than its outgoing buffer and socket can hold
+				// (PINGREQs), reads none of them, and is cut: its own processor is stuck on its
+				// own full ring when the connection ends
+				at.Barrier()
+				at.Stall()
+				at.SendAsync(bytes.Repeat([]byte{0xC0, 0}, 9000))
+				time.Sleep(30 * time.Millisecond)
+				at.Close()
+				if !at.WaitTeardown(wire.DefaultWait) {
+					trapNote <- "!the connection of a client that flooded the broker with requests, read no answer and was cut was not torn down"
+				} else {
+					trapNote <- "flood-of-requests-unread-then-cut"
+				}
 			case "stall-disconnect":
 				// the subscriber stops reading, traffic addressed to it piles up (its ring fills
 				// and publishers are held up by it), then it says DISCONNECT and leaves the
@@ -437,8 +451,13 @@ func genC05Jam(t *rapid.T) C05Case {
 }
 
 func genC05(t *rapid.T) C05Case {
-	if rapid.IntRange(0, 7).Draw(t, "jam") == 0 {
+	if j := rapid.IntRange(0, 9).Draw(t, "jam"); j == 0 {
 		return genC05Jam(t)
+	} else if j == 1 {
+		c := genC05Jam(t)
+		c.WitnessPad = 0
+		c.Attackers[0].End, c.Attackers[0].Kind = "flood-close", "valid-subscriber-floods-requests-unread-then-cut"
+		return c
 	}
 	c := C05Case{BufSize: 16384, WitnessQoS: byte(rapid.IntRange(0, 1).Draw(t, "wq")), NMsgs: rapid.IntRange(12, 60).Draw(t, "nmsgs")}
 	for i, n := 0, rapid.IntRange(1, 3).Draw(t, "nattackers"); i < n; i++ {
